@@ -252,14 +252,13 @@ def is_storage_device(name):
 
 
 @memoize
-def set_scputimes_ntuple(procfs_path):
-    """Set a namedtuple of variable fields depending on the CPU times
+def _scputimes_ntuple_for(procfs_path):
+    """Return a namedtuple of variable fields depending on the CPU times
     available on this Linux kernel version which may be:
     (user, nice, system, idle, iowait, irq, softirq, [steal, [guest,
      [guest_nice]]])
     Used by cpu_times() function.
     """
-    global scputimes
     with open_binary(f"{procfs_path}/stat") as f:
         values = f.readline().split()[1:]
     fields = ['user', 'nice', 'system', 'idle', 'iowait', 'irq', 'softirq']
@@ -273,7 +272,17 @@ def set_scputimes_ntuple(procfs_path):
     if vlen >= 10:
         # Linux >= 3.2.0
         fields.append('guest_nice')
-    scputimes = namedtuple('scputimes', fields)
+    return namedtuple('scputimes', fields)
+
+
+def set_scputimes_ntuple(procfs_path):
+    """Set the scputimes namedtuple for this procfs. The field layout
+    is looked up once per path, but it is (re)installed on every call,
+    else going back to a PROCFS_PATH visited earlier keeps the layout
+    of the last one.
+    """
+    global scputimes
+    scputimes = _scputimes_ntuple_for(procfs_path)
 
 
 try:
